@@ -337,6 +337,24 @@ def handle (j : Json) : Except String Json := do
     match Tx.insertRegisters c (← (← j.getObjVal? "num_stages").getNat?) ord 2000000 with
     | .ok r => pure (respond .ok [("c", circuitToJson r)])
     | .error e => pure (respond e [])
+  | "re_findall" =>
+    match Regex.findall (← (← j.getObjVal? "pattern").getStr?) (← (← j.getObjVal? "text").getStr?) (getBoolD j "dotall" false) with
+    | some r => pure (respond .ok [("r", jarr (jarr jstr) r)])
+    | none => pure (respond (.other "regex-parse") [])
+  | "re_search" =>
+    match Regex.search (← (← j.getObjVal? "pattern").getStr?) (← (← j.getObjVal? "text").getStr?) (getBoolD j "dotall" false) with
+    | some (some mt) => pure (respond .ok [("span", Json.arr #[jnat mt.start, jnat mt.stop]),
+        ("groups", jarr (fun (g : Option String) => match g with | some x => jstr x | none => Json.null) mt.groups)])
+    | some none => pure (respond .ok [("span", Json.null)])
+    | none => pure (respond (.other "regex-parse") [])
+  | "bench_read" =>
+    match Bench.read (← (← j.getObjVal? "text").getStr?) (← (← j.getObjVal? "name").getStr?) with
+    | .ok c => pure (respond .ok [("c", circuitToJson c)])
+    | .error e => pure (respond e [])
+  | "bench_write" =>
+    match Bench.write (← circuitOfJson (← j.getObjVal? "c")) ord with
+    | .ok t => pure (respond .ok [("text", jstr t)])
+    | .error e => pure (respond e [])
   | "ord" =>
     pure (respond .ok [("r", jarr jstr (ord (getStrListD j "l")))])
   | _ => throw s!"unknown op {op}"
